@@ -12,7 +12,9 @@ R2 MIRROR-MAPS: every primitive is a mirror pair: rank maps satisfy f(Black) = 7
 R3 MIRROR-TABLES (data, complete): per-colour tables are vertical mirrors of each other; colour-free
    tables are equivariant under the vertical and the horizontal flip.
 R4 FILE-PARAMETRICITY: File constants, switches on File and left/right steps occur in the core only
-   in the castling code."""
+   in the castling code.
+R5 RAW-GEOMETRY: no raw word arithmetic on square sets (shifts, +,-,*, BitBoard::new of a computed
+   word) in the core outside the audited geometry primitives."""
 from .common import *
 from .. import tables as T
 from ..expr import mk_constref
@@ -210,6 +212,68 @@ def r14(ctx):
     ctx.ok('C17.R4', 'no unconfirmed file-specific construct inside the symmetric core', '')
 
 
+ARITH_PRIMITIVE_FILES = ('src/bitboard.rs', 'src/magic.rs', 'src/square.rs', 'src/rank.rs', 'src/file.rs', 'src/color.rs', 'src/piece.rs',
+                         'src/castle_rights.rs', 'src/zobrist.rs')
+
+
+def r5(ctx):
+    """R5 RAW-GEOMETRY: inside the symmetric core, square sets are combined only through the audited set algebra and table
+    accessors. Raw word arithmetic on a bitboard (shifts, add/sub/mul, BitBoard::new / BitBoard(..) of a computed word) encodes an
+    absolute direction or wrap-around and is not mirror-equivariant; it is allowed only in the geometry primitives
+    (bitboard.rs, magic.rs, square.rs, rank.rs, file.rs ...), where a positive control must find it."""
+    R = 'C17.R5'
+    f = ctx.facts()
+    core = core_set(ctx)
+    derived = {it for imp in f.impls if imp.get('derived') for it in imp['items']}
+    control = 0
+    for key in sorted(core):
+        if '::{promoted#' in key or key in derived:
+            continue
+        body = f.bodies[key]
+        prim = body.file in ARITH_PRIMITIVE_FILES
+        for bi in sorted(body.reachable()):
+            b = body.blocks[bi]
+            for st in b['stmts']:
+                if st['k'] != 'assign':
+                    continue
+                rv = st['rv']
+                bad = None
+                if rv['rv'] in ('bin', 'checked_bin') and rv.get('bop', '').replace('WithOverflow', '').replace('Unchecked', '') in ('Shl', 'Shr', 'Mul', 'Add', 'Sub'):
+                    # operands of type u64 only (usize counters and indices are not square sets)
+                    tys = []
+                    for o in (rv['a'], rv['b']):
+                        pl = o.get('c') or o.get('m')
+                        if pl is not None and not pl['p']:
+                            tys.append(body.locals[pl['l']]['ty'])
+                        elif pl is not None:
+                            last = pl['p'][-1]
+                            tys.append(last.get('ty', '') if isinstance(last, dict) else '')
+                        elif 'k' in o:
+                            tys.append(o['k'].get('ty', ''))
+                    if tys and tys[0] == 'u64':
+                        bad = 'u64 %s' % rv['bop']
+                if rv['rv'] == 'agg' and rv.get('adt') == 'bitboard::BitBoard':
+                    ops = rv.get('ops', [])
+                    if ops and 'k' not in ops[0]:
+                        bad = 'BitBoard(computed word)'
+                if bad:
+                    if prim:
+                        control += 1
+                    else:
+                        ctx.violation(R, '%s:%s' % (key, bad), '%s performs raw word arithmetic on a square set (%s): this encodes an absolute direction / '
+                                      'wrap-around that the mirror maps do not preserve; use the table accessors and set algebra' % (key, bad), where(body, st['line']))
+            t = b['term']
+            if t['k'] == 'call' and not prim and (t.get('callee') or '') in ('bitboard::BitBoard::new',):
+                a0 = t['args'][0] if t['args'] else {}
+                if 'k' not in a0:
+                    ctx.violation(R, '%s:BitBoard::new' % key, '%s builds a BitBoard from a computed word (BitBoard::new): raw geometry outside the audited primitives' % key,
+                                  where(body, t['line']))
+    if control == 0:
+        ctx.inconclusive(R, 'positive control failed: no raw word arithmetic found even inside the geometry primitives')
+    else:
+        ctx.ok(R, 'raw word arithmetic on square sets occurs only inside the audited geometry primitives (%d sites there; positive control)' % control, '')
+
+
 def r2(ctx):
     R = 'C17.R2'
     f = ctx.facts()
@@ -344,5 +408,6 @@ def r3(ctx):
 
 def run(ctx):
     r14(ctx)
+    r5(ctx)
     r2(ctx)
     r3(ctx)
